@@ -1,7 +1,7 @@
 PROP = {
         "modules": ["Discv5Model.Props.C15"],
         "lemma_modules": ["Discv5Model.Proofs.LruLemmas"],
-        "engines": [{"name": "lru", "quick": 300, "thorough": 5000}],
+        "engines": [{"name": "lru", "quick": 300, "thorough": 5000}, {"name": "handler", "quick": 32, "thorough": 400}],
         "rule": "lru engine: each case = one LruTimeCache<u64,u64> (ttl 20..60 ms real time, capacity 0..4 or None) "
                 "driven by 6..18 ops insert/get/get_mut+write/peek/len/remove/remove_expired_values over 3..6 keys "
                 "(75% of the reads aimed at keys that are present), idle periods clearly shorter (<= 0.6 ttl "
